@@ -2,7 +2,7 @@
    the oracle's stage decomposition holds of the model. *)
 Require Import Verif.Common.Base Verif.Common.Json Verif.Common.JsonFacts.
 Require Import Verif.Model.C06 Verif.Spec.C06.
-Require Import Verif.Proof.C06 Verif.Proof.C06_d Verif.Proof.C06_e.
+Require Import Verif.Proof.C06 Verif.Proof.C06_d Verif.Proof.C06_e Verif.Proof.C06_k.
 
 Theorem rename_lookup_model : forall mp f, names_distinct mp ->
   forall k', lookup k' (apply_mapping mp f) = rename_lookup mp f k'.
@@ -57,7 +57,6 @@ Qed.
    passing allow_ok / deny_ok, and the rest is group (mapping f) *)
 Theorem stages_model : forall c d,
   wfj (JObj d) = true ->
-  (allow c = [] \/ prefix_free (map split_dot (allow c))) ->
   exists f,
     format {| target := target c; allow := []; deny := []; mapping := []; group := "" |} d
       = Ok (target_spec c d) /\
@@ -69,7 +68,7 @@ Theorem stages_model : forall c d,
     (names_distinct (sanitize (mapping c)) -> forall k',
        lookup k' (mapping_stage c f) = rename_lookup (sanitize (mapping c)) f k').
 Proof.
-  intros c d Hwf Hpf.
+  intros c d Hwf.
   assert (Hwt : wfj (JObj (target_spec c d)) = true).
   { destruct (target_spec_path c d) as [-> | [-> | [q Hq]]]; [exact Hwf|reflexivity|].
     eapply wfj_get_path; [exact Hwf|exact Hq]. }
@@ -91,7 +90,7 @@ Proof.
   - unfold filter_ok. unfold filter_stage in Hf.
     destruct (target_spec c d) as [|e t] eqn:Et.
     + cbn [is_nil] in Hf. inversion Hf; subst f.
-      destruct (is_nil (allow c)); [|destruct (prefix_free_b _)]; try reflexivity;
+      destruct (is_nil (allow c));
         unfold deny_ok, allow_ok; apply forallb_forall; intros p Hp;
         pose proof (probe_nonempty _ _ _ _ Hp) as Hne.
       * apply deny_at_b_iff. split.
@@ -107,9 +106,7 @@ Proof.
       * destruct (deny_panics _ _); [discriminate|]. inversion Hf; subst f.
         apply deny_ok_model; [apply split_paths_nonempty|exact Hwt].
       * inversion Hf; subst f.
-        destruct Hpf as [Hpf|Hpf]; [rewrite Hpf in Ea; discriminate|].
-        rewrite (prefix_free_b_complete _ Hpf).
-        apply allow_ok_model; [apply split_paths_nonempty|exact Hpf|exact Hwt].
+        apply allow_ok_model_any; [apply split_paths_nonempty|exact Hwt].
   - exact Hfmt.
   - apply ungroup_group.
   - intros Hnd k'. unfold mapping_stage. destruct f as [|e f']; cbn [is_nil].
